@@ -95,22 +95,31 @@ fn run(ctx: &Ctx) {
     ctx.run_tape("names", names, ctx.pick(200_000, 400_000), 64);
 }
 
+/// first column in which a registry entry differs from a row of the text file (also used by C15 for "its registry entry")
+pub fn suite_differs(s: &TlsCipherSuite, r: &Row) -> Option<(&'static str, String)> {
+    let cols: [(&'static str, String, String); 10] = [
+        ("id", format!("{:04x}", s.id.0), format!("{:04x}", r.id)),
+        ("name", s.name.to_string(), r.name.clone()),
+        ("kx", format!("{:?}", s.kx), r.kx.to_string()),
+        ("au", format!("{:?}", s.au), r.au.to_string()),
+        ("enc", format!("{:?}", s.enc), r.enc.to_string()),
+        ("mode", format!("{:?}", s.enc_mode), r.mode.to_string()),
+        ("enc_size", s.enc_size.to_string(), r.enc_size.to_string()),
+        ("mac", format!("{:?}", s.mac), r.mac.to_string()),
+        ("mac_size", s.mac_size.to_string(), r.mac_size.to_string()),
+        ("prf", format!("{:?}", s.prf), r.prf.to_string()),
+    ];
+    cols.into_iter().find(|(_, a, b)| a != b).map(|(c, a, b)| (c, format!("{} is {}, the text file says {}", c, a, b)))
+}
+
 fn compare_row(r: &Row, what: &str) -> R {
     let s = match TlsCipherSuite::from_id(r.id) {
         Some(s) => s,
         None => return fail(format!("C12:{}:missing:{:04x}", what, r.id), format!("suite {:04x} {} is listed but from_id returns None", r.id, r.name)),
     };
-    let sig = |col: &str| format!("C12:{}:{:04x}:{}", what, r.id, col);
-    ensure_eq!(s.id.0, r.id, sig("id"), "{}: id", r.name);
-    ensure_eq!(s.name, r.name.as_str(), sig("name"), "{:04x}: name", r.id);
-    ensure_eq!(format!("{:?}", s.kx), r.kx, sig("kx"), "{}: key exchange", r.name);
-    ensure_eq!(format!("{:?}", s.au), r.au, sig("au"), "{}: authentication", r.name);
-    ensure_eq!(format!("{:?}", s.enc), r.enc, sig("enc"), "{}: cipher", r.name);
-    ensure_eq!(format!("{:?}", s.enc_mode), r.mode, sig("mode"), "{}: mode", r.name);
-    ensure_eq!(s.enc_size, r.enc_size, sig("enc_size"), "{}: key bits", r.name);
-    ensure_eq!(format!("{:?}", s.mac), r.mac, sig("mac"), "{}: MAC", r.name);
-    ensure_eq!(s.mac_size, r.mac_size, sig("mac_size"), "{}: MAC bits", r.name);
-    ensure_eq!(format!("{:?}", s.prf), r.prf, sig("prf"), "{}: PRF", r.name);
+    if let Some((col, d)) = suite_differs(s, r) {
+        return fail(format!("C12:{}:{:04x}:{}", what, r.id, col), format!("{:04x} {}: {}", r.id, r.name, d));
+    }
     Ok(())
 }
 
@@ -228,43 +237,57 @@ fn names(t: &mut Tape, obs: &mut Obs) -> R {
     let tb = tabs()?;
     let n = tb.file.len();
     let base = &tb.file[t.below(n)];
-    let mut s = base.name.clone();
-    let ops = t.below(3); // 0 = the name itself
+    // edits work on characters, so that multi-byte characters can be placed anywhere (names are &str: any UTF-8 text is a legal query)
+    let mut cs: Vec<char> = base.name.chars().collect();
+    let ops = t.below(4); // 0 = the name itself
     let mut label = String::from("exact");
     for _ in 0..ops {
-        let k = t.below(9);
-        label = ["prefix", "suffix", "append", "prepend", "lower", "upper", "edit", "join", "space"][k].to_string();
+        let k = t.below(12);
+        label = ["prefix", "suffix", "append", "prepend", "lower", "upper", "edit", "join", "space", "multibyte-insert", "multibyte-replace", "utf8-text"][k].to_string();
         match k {
             0 => {
-                let c = t.below(s.len() + 1);
-                s.truncate(c);
+                let c = t.below(cs.len() + 1);
+                cs.truncate(c);
             }
             1 => {
-                let c = t.below(s.len() + 1);
-                s = s[c..].to_string();
+                let c = t.below(cs.len() + 1);
+                cs.drain(..c);
             }
-            2 => s.push(t.pick(&['_', 'A', '6', ' ', '\0', '4'])),
-            3 => s.insert(0, t.pick(&['T', '_', ' '])),
-            4 => s = s.to_lowercase(),
-            5 => s = s.to_uppercase(),
+            2 => cs.push(t.pick(&['_', 'A', '6', ' ', '\0', '4'])),
+            3 => cs.insert(0, t.pick(&['T', '_', ' '])),
+            4 => cs = cs.iter().collect::<String>().to_lowercase().chars().collect(),
+            5 => cs = cs.iter().collect::<String>().to_uppercase().chars().collect(),
             6 => {
-                if !s.is_empty() {
-                    let i = t.below(s.len());
-                    let c = t.pick(&['_', 'A', '1', '2', '5', '8', 'X']);
-                    s.replace_range(i..i + 1, &c.to_string());
+                if !cs.is_empty() {
+                    let i = t.below(cs.len());
+                    cs[i] = t.pick(&['_', 'A', '1', '2', '5', '8', 'X']);
                 }
             }
             7 => {
                 let o = &tb.file[t.below(n)];
-                s.push_str(&o.name);
+                cs.extend(o.name.chars());
             }
-            _ => s = format!(" {}", s),
+            8 => cs.insert(0, ' '),
+            9 | 10 => {
+                // 2-, 3- and 4-byte characters, mostly within the first few positions (every byte offset 1..12 ends up inside a character in some case)
+                let c = t.pick(&['\u{e9}', '\u{20ac}', '\u{65e5}', '\u{1f512}', '\u{7ff}', '\u{ffff}', '\u{10ffff}', '\u{80}']);
+                let lim = if t.chance(200) { cs.len().min(12) } else { cs.len() };
+                let i = t.below(lim + 1).min(cs.len());
+                if k == 9 || i >= cs.len() {
+                    cs.insert(i, c);
+                } else {
+                    cs[i] = c;
+                }
+            }
+            _ => cs = String::from_utf8_lossy(&t.utf8_text(40)).chars().collect(),
         }
     }
+    let s: String = cs.into_iter().collect();
     let want = tb.file.iter().find(|r| r.name == s);
     obs.nontrivial(vmodel::wire::fnv64(s.as_bytes()));
     obs.sample_class(&label, || json!({"query": s, "expected": want.map(|r| format!("{:04x}", r.id))}));
-    let routes: [(&str, Option<&'static TlsCipherSuite>); 2] = [("from_name", TlsCipherSuite::from_name(&s)), ("TryFrom<&str>", <&'static TlsCipherSuite>::try_from(s.as_str()).ok())];
+    let routes: [(&str, Option<&'static TlsCipherSuite>); 2] =
+        [("from_name", guard("TlsCipherSuite::from_name", || TlsCipherSuite::from_name(&s))?), ("TryFrom<&str>", guard("TryFrom<&str> for &TlsCipherSuite", || <&'static TlsCipherSuite>::try_from(s.as_str()).ok())?)];
     for (rn, got) in routes {
         match (want, got) {
             (None, None) => {}
